@@ -640,26 +640,32 @@ class Sim:
     def pending_acquires(self):
         return [t for t, (kind, db, tk) in self.tasks.items() if kind == 'A' and not tk.done()]
 
-    def drain(self, max_rounds=60):
+    def drain(self, max_rounds=1500, idle_limit=12):
         """fair scheduler: everything that can complete completes successfully, every holder
-        releases, the clock moves, due timers fire."""
-        same = 0
-        last = None
+        releases, the clock moves, due timers fire.  Runs as long as anything progresses (an
+        acquire returns, a connect / disconnect completes, a holder releases, a callback other
+        than a timer runs); stops after `idle_limit` consecutive rounds in which only timers
+        fired and nothing is in flight, lent or ready."""
+        idle = 0
         rounds = 0
         while rounds < max_rounds:
             rounds += 1
+            progress = 0
             while self.ev_run():
-                pass
+                progress += 1
             for cid in list(self.conn_calls):
                 self.ev_conn_ok(cid)
+                progress += 1
             for did in list(self.disc_calls):
                 self.ev_disc(did, True)
+                progress += 1
             while self.ev_run():
-                pass
+                progress += 1
             for t, (db, c) in list(self.held_by.items()):
                 self.ev_release(db, c, False)
+                progress += 1
             while self.ev_run():
-                pass
+                progress += 1
             # let time pass: 50 ms per round, firing every timer that becomes due (ticks are
             # due every ~10 ms while somebody waits)
             target = self.clk.t + 0.05
@@ -671,20 +677,18 @@ class Sim:
                 self.ev_timer()
                 fired += 1
                 while self.ev_run():
-                    pass
+                    progress += 1
             if self.clk.t < target:
                 self.clk.t = target
             busy = bool(self.conn_calls or self.disc_calls or self.held_by or self.loop._ready)
             if not self.pending_acquires() and not busy:
                 break
-            d = self.dig[-1] if self.dig else ''
-            if d == last and not busy:
-                same += 1
-                if same >= 6:
+            if progress == 0 and not busy:
+                idle += 1
+                if idle >= idle_limit:
                     break
             else:
-                same = 0
-            last = d
+                idle = 0
         starved = []
         p = self.pool
         for t in self.pending_acquires():
@@ -706,7 +710,7 @@ class Sim:
         for t, (db, exc) in self.failed_acq.items():
             if db not in self.connect_fail_seen:
                 bad_fail.append({'task': t, 'db': db, 'exc': exc})
-        return {'rounds': rounds, 'starved': starved, 'unexpected_failures': bad_fail,
+        return {'rounds': rounds, 'exhausted': rounds >= max_rounds, 'starved': starved, 'unexpected_failures': bad_fail,
                 'final': self.dig[-1] if self.dig else ''}
 
 
@@ -724,7 +728,7 @@ def _alarm(signum, frame):
 
 
 CASE_SECONDS = float(os.environ.get('C15_CASE_SECONDS', '5'))
-MAX_EVENTS = 20000
+MAX_EVENTS = 60000
 
 
 N_RUNAWAY = 0
